@@ -75,7 +75,7 @@ func c9MetGen(r *h.Rng) *c9MetCase {
 		}
 		return " " + h.Pick(r, []string{"==", "!=", ">", ">=", "<", "<="}) + " " + h.Pick(r, []string{"0", "1", "2", "0.5", "3", "2.5", "10"})
 	}
-	dur := h.Pick(r, []string{"1s", "2s", "5s", "7s", "15s", "30s", "1m", "1500ms"})
+	dur := h.Pick(r, []string{"1s", "2s", "5s", "7s", "15s", "30s", "1m", "1500ms", "1500us", "2500us"})
 	unwrap := r.Chance(55)
 	var fn, uw, rgrp string
 	kind := ""
@@ -101,7 +101,11 @@ func c9MetGen(r *h.Rng) *c9MetCase {
 		g := grouping()
 		acmp := cmp()
 		pos := r.Bool()
+		ungrouped := r.Chance(30) // `sum(rate(…))`: one series with the empty label set (C08 `vector_agg_ungrouped`)
 		wrap := func(inner string) string {
+			if ungrouped {
+				return agg + " (" + inner + ")" + acmp
+			}
 			if pos {
 				return agg + " " + g + " (" + inner + ")" + acmp
 			}
@@ -109,6 +113,11 @@ func c9MetGen(r *h.Rng) *c9MetCase {
 		}
 		whole, inproc = wrap(whole), wrap(inproc)
 		kind += ",agg:" + agg
+		if ungrouped {
+			kind += ",agg-ungrouped"
+		} else {
+			kind += ",agg-grouped"
+		}
 	}
 	if rcmp != "" {
 		kind += ",cmp"
